@@ -12,11 +12,6 @@ namespace Drpc.Props.C18
 open Drpc Drpc.Compat
 open Drpc.Props.C09 (observed)
 
-/-- set the Control field of a parse result -/
-def withControl (b : Bool) : PR → PR
-  | .ok rem fr => .ok rem { fr with control := b }
-  | r => r
-
 /-- The control bit is the formerly reserved top bit of the first byte: the v0.0.17 parser is the
     same function as today's on EVERY byte string (it already reads bit 7 into `Frame.Control`),
     and bit 7 influences nothing but that field — neither kind, done, ids, payload nor how many
@@ -142,6 +137,37 @@ theorem old_emits_wellformed (fs : List Frame) (h : OldProducible fs) :
 example : OldProducible (oldEmit 1 [⟨[1#8, 2#8], 1#64, 1#64, 2#8⟩, ⟨[], 1#64, 2#64, 6#8⟩]) :=
   ⟨1, _, ⟨by decide, by decide⟩, rfl⟩
 
+/-- The same for the STREAM LAYERS: whatever sequence of API calls (RawWrite/MsgSend, SendError,
+    SendCancel, Close, CloseSend, Cancel, RawFlush) is made on consecutive streams of a connection
+    with increasing stream ids, what either version's `drpcstream.Stream` hands to the writer is
+    well-formed — soft cancels at any position included (`soft = true`: working tree with split
+    size `m`; `soft = false`: v0.0.17). -/
+theorem stream_layer_emits_wellformed (m : Nat) (soft : Bool) (conn : List (U64 × List Op))
+    (hok : connOk conn) (hinc : sidsIncreasing 0#64 conn) :
+    wellFormed (emitConn m soft conn) = true :=
+  wellFormed_emitConn m soft conn hok hinc
+
+/-- … and the v0.0.17 stream layer never sets the control bit. -/
+theorem old_stream_layer_never_control (m : Nat) (conn : List (U64 × List Op)) :
+    ∀ f ∈ emitConn m false conn, f.control = false :=
+  emitConn_noctl m conn
+
+/-- non-vacuity: two streams, a soft cancel in the middle of the first one's calls -/
+example : connOk [(1#64, [.write 1#8 [1#8], .write 2#8 [2#8, 3#8], .sendCancel, .write 2#8 []]), (2#64, [.close])] ∧
+    sidsIncreasing 0#64 [(1#64, [.write 1#8 [1#8], .write 2#8 [2#8, 3#8], .sendCancel, .write 2#8 []]), (2#64, [.close])] := by
+  refine ⟨?_, by simp [sidsIncreasing]⟩
+  intro st hst
+  simp only [List.mem_cons, List.not_mem_nil, or_false] at hst
+  rcases hst with rfl | rfl
+  · refine ⟨?_, by simp⟩
+    intro op hop
+    simp only [List.mem_cons, List.not_mem_nil, or_false] at hop
+    rcases hop with rfl | rfl | rfl | rfl <;> simp [opOk]
+  · refine ⟨?_, by simp⟩
+    intro op hop
+    simp only [List.mem_cons, List.not_mem_nil, or_false] at hop
+    subst hop; simp [opOk]
+
 /-- Old and new endpoints interoperate, end to end: what the current writer sends is delivered
     to a v0.0.17 reader as exactly what the current reader would deliver, minus control packets. -/
 theorem interop_new_to_old (mx final : Nat) (choose₁ choose₂ : Nat → Nat) (fs : List Frame)
@@ -151,6 +177,19 @@ theorem interop_new_to_old (mx final : Nat) (choose₁ choose₂ : Nat → Nat) 
       (minusControl (observed (readAll mx choose₂ final (encode fs))).1,
        toOldErr (observed (readAll mx choose₂ final (encode fs))).2) :=
   old_reads_new mx final choose₁ choose₂ fs (new_emits_wellformed fs hprod) hfw hp1 hp2
+
+/-- End to end at the stream layer: whatever current Streams send on a connection (within the
+    limits), a v0.0.17 reader delivers exactly what the current reader delivers minus the control
+    packets — in particular never a soft cancel. -/
+theorem interop_stream_layer_new_to_old (mx final : Nat) (choose₁ choose₂ : Nat → Nat) (m : Nat)
+    (conn : List (U64 × List Op)) (hok : connOk conn) (hinc : sidsIncreasing 0#64 conn)
+    (hfw : framesWithin Old.maxTok (emitConn m true conn))
+    (hp1 : packetsWithin mx (emitConn m true conn) = true)
+    (hp2 : packetsWithin Old.maxPacket (emitConn m true conn) = true) :
+    Old.oldReadAll choose₁ final (encode (emitConn m true conn)) =
+      (minusControl (observed (readAll mx choose₂ final (encode (emitConn m true conn)))).1,
+       toOldErr (observed (readAll mx choose₂ final (encode (emitConn m true conn)))).2) :=
+  old_reads_new mx final choose₁ choose₂ _ (stream_layer_emits_wellformed m true conn hok hinc) hfw hp1 hp2
 
 /-- A packet with the control bit and a kind the stream layer has no case for is ignored: no
     state change at all, no error. -/
